@@ -375,3 +375,23 @@ End Ref.
 
 Definition is_arrow (e:event) : bool := match e with Arrow _ _ _ => true | _ => false end.
 Definition arrows (l:list event) : list event := filter is_arrow l.
+
+(* ---- group boxes (GenerateSequenceDiag after the walk, option groupby): `groups` maps an application to the value
+   of its group-by attribute (empty when the option is off). visitEndpoint puts the target application of every
+   visit into the box named by that value; on a run without error these are exactly the registered symbols (a sender
+   is always an application under expansion, i.e. an earlier target), so the boxes are computed from the final symbol
+   table instead of being threaded through the state. Boxes are written in name order, their members in application
+   name order (ids are handed out by the harness in name order). ---- *)
+Fixpoint ins_sorted (x:N) (l:list N) : list N :=
+  match l with [] => [x] | y :: t => if N.leb x y then x :: y :: t else y :: ins_sorted x t end.
+Definition isort (l:list N) : list N := fold_right ins_sorted [] l.
+Definition group_of (groups:list (id*id)) (x:id) : option id := assoc x groups.
+Definition in_group (groups:list (id*id)) (g:id) (x:id) : bool :=
+  match group_of groups x with Some g' => N.eqb g' g | None => false end.
+Definition box_names (groups:list (id*id)) (ys:list id) : list id :=
+  isort (nodup N.eq_dec (flat_map (fun x => match group_of groups x with Some g => [g] | None => [] end) ys)).
+Definition boxes_of (groups:list (id*id)) (ys:list id) : list (id * list id) :=
+  map (fun g => (g, isort (filter (in_group groups g) ys))) (box_names groups ys).
+Definition gen_boxes (V:variant) (m:module) (fuel:nat) (bbs:list bbin) (starts:list (id*id)) (groups:list (id*id))
+  : outcome (list (id * list id)) :=
+  bind (gen_st V m fuel bbs starts) (fun s => Ok (boxes_of groups (syms s))).
